@@ -19,6 +19,7 @@ type Config struct {
 	MaxAlloc        int64
 	MapPerm         bool
 	RunGo           bool
+	Sched           bool
 	UnbufferedAsOne bool
 	Params          map[string]int
 	Verbose         bool
@@ -414,6 +415,7 @@ func choicesString(ds []Decision) string {
 // runPath executes the entry function once under the given decision prefix.
 func (in *Interp) runPath(prefix []Decision) (outcome string, msg string) {
 	in.resetPath(prefix)
+	defer in.schedFinish()
 	defer func() {
 		r := recover()
 		if r == nil {
